@@ -31,7 +31,7 @@ using namespace vp;
 const TargetInfo vp_info = {"c10_matrix", 4, 40};
 
 // calibrated on the frozen reference (calib/C10.json): minimum per-channel round-trip SNR in dB
-static const double SNR_FLOOR_DB = 19.0;
+static const double SNR_FLOOR_DB = 18.0;
 static const double SNR_REL_DB = 6.0;      // the tree may be at most this much below the frozen codec on the same input
 static const double IDENTITY_TOL = 1e-3;
 
@@ -174,6 +174,7 @@ static int check_roundtrip(Choice& c, Report& rep) {
   rep.note("min SNR tree %.1f dB, frozen %.1f dB", mn, mnref);
   // calibration aid: histogram of the weakest channel of the frozen codec
   rep.labelf("ref-min-snr-%ddB", (int)(std::floor(mnref / 5.0) * 5));
+  if (mnref < 26) rep.labelf("ref-min-snr-exact-%.1fdB-order-%d", std::floor(mnref * 2) / 2, order);
   return 0;
 }
 
